@@ -234,10 +234,164 @@ func (b *bufGen) flush() {
 	}
 }
 
+// length classes of the AVX2 assembly: which entry (short / 192 / 320 / main loop) and which tail routine
+// (remaining bytes after the 512-byte main loop: 0, ≤128, ≤256, ≤384, ≤512), plus the 16/32-byte tail steps
+func lengthClass(L int) string {
+	switch {
+	case L <= 128:
+		return fmt.Sprintf("short,mod32=%s", mod32(L))
+	case L <= 192:
+		return "avx2-192," + mod32(L)
+	case L <= 320:
+		return "avx2-320," + mod32(L)
+	}
+	rem := L % 512
+	switch {
+	case rem == 0:
+		return "main,tail=0"
+	case rem <= 128:
+		return "main,tail<=128"
+	case rem <= 256:
+		return "main,tail<=256"
+	case rem <= 384:
+		return "main,tail<=384"
+	}
+	return "main,tail<=512"
+}
+
+func mod32(L int) string {
+	switch m := L % 32; {
+	case m == 0:
+		return "0"
+	case m < 16:
+		return "1..15"
+	case m == 16:
+		return "16"
+	}
+	return "17..31"
+}
+
+var allLengthClasses = func() map[string]bool {
+	m := map[string]bool{}
+	for L := 0; L <= 4096; L++ {
+		m[lengthClass(L)] = true
+	}
+	return m
+}()
+
+var seenClass = map[string]map[string]bool{"seal": {}, "open": {}}
+
+// pairSweepC01 constructs, for every compatible pair of features, a case that has both (run on all three paths).
+func pairSweepC01(g *bufGen) {
+	r := g.R
+	ps := &pairSweep{
+		feats: []string{"seal", "open", "xchacha", "inplace", "offset", "dst-prefix", "dst-spare", "pt-empty", "pt-short", "pt-mult16", "pt-mult64", "pt-long",
+			"ad-empty", "ad-13", "ad-long", "nil", "open-invalid", "session", "fresh"},
+		exclusive: [][]string{{"seal", "open"}, {"inplace", "offset"}, {"pt-empty", "pt-short", "pt-mult16"}, {"pt-empty", "pt-short", "pt-mult64"}, {"pt-empty", "pt-short", "pt-long"}, {"ad-empty", "ad-13", "ad-long"}},
+		forbidden: map[string][]string{
+			"open-invalid": {"seal"},
+			"inplace":      {"dst-prefix", "nil"},
+			"offset":       {"nil"},
+			"nil":          {"dst-prefix", "dst-spare"},
+		},
+	}
+	ps.run(1, func(k string) { g.Stat(k) }, func(fs featSet) bool {
+		x := 0
+		if fs.has("xchacha") {
+			x = 1
+		}
+		L := r.Range(17, 200)
+		switch {
+		case fs.has("pt-empty"):
+			L = 0
+		case fs.has("pt-short"):
+			L = r.Range(1, 15)
+		case fs.has("pt-long") && fs.has("pt-mult64"):
+			L = 512 + 64*r.Intn(12)
+		case fs.has("pt-long"):
+			L = 513 + r.Intn(700)
+		case fs.has("pt-mult64"):
+			L = 64 * r.Range(1, 7)
+		case fs.has("pt-mult16"):
+			L = 16 * r.Range(1, 20)
+		}
+		adLen := r.Range(1, 40)
+		switch {
+		case fs.has("ad-empty") || (fs.has("nil") && !fs.has("pt-empty")):
+			adLen = 0
+		case fs.has("ad-13"):
+			adLen = 13
+		case fs.has("ad-long"):
+			adLen = r.Range(256, 700)
+		}
+		if fs.has("nil") && !fs.has("ad-13") && !fs.has("ad-long") {
+			adLen = 0
+		}
+		key, nonce, ad, pt := r.Bytes(32), r.Bytes(12+12*x), r.Bytes(adLen), r.Bytes(L)
+		place := "sep"
+		if fs.has("inplace") {
+			place = "inplace"
+		}
+		if fs.has("offset") {
+			place = "offset"
+		}
+		var dst []byte
+		spare := 0
+		if fs.has("dst-prefix") || place == "offset" {
+			dst = r.Bytes(r.Range(1, 16))
+		}
+		if fs.has("dst-spare") {
+			spare = L + 16 + r.Range(1, 32)
+		}
+		extra := ""
+		if fs.has("nil") {
+			extra = " nils=1"
+		}
+		var lines []string
+		for _, p := range []string{"asm", "gen", "off"} {
+			if fs.has("open") || fs.has("open-invalid") {
+				ct := realSeal(x, key, nonce, pt, ad)
+				if fs.has("open-invalid") {
+					ct[len(ct)-1-r.Intn(16)] ^= 0x80
+				}
+				lines = append(lines, fmt.Sprintf("open x=%d key=%s nonce=%s ad=%s ct=%s dst=%s cap=%d place=%s%s path=%s", x, hx.Hex(key), hx.Hex(nonce), hx.Hex(ad), hx.Hex(ct), hx.Hex(dst), spare, place, extra, p))
+			} else {
+				lines = append(lines, fmt.Sprintf("seal x=%d key=%s nonce=%s ad=%s pt=%s dst=%s cap=%d place=%s%s path=%s", x, hx.Hex(key), hx.Hex(nonce), hx.Hex(ad), hx.Hex(pt), hx.Hex(dst), spare, place, extra, p))
+			}
+		}
+		if fs.has("session") || fs.has("fresh") {
+			if fs.has("fresh") {
+				lines[1] += " fresh=1"
+			}
+			g.Gen.Emit("%s", sessLine(lines))
+		} else {
+			for _, l := range lines {
+				g.Gen.Emit("%s", l)
+			}
+		}
+		return true
+	})
+}
+
 func gen(gg *hx.Gen) {
 	g := &bufGen{Gen: gg}
 	defer g.flush()
+	defer func() {
+		for _, cmd := range []string{"seal", "open"} {
+			for _, pl := range []string{"sep", "inplace"} {
+				hit := 0
+				for c := range allLengthClasses {
+					if seenClass[cmd][pl+":"+c] {
+						hit++
+					}
+				}
+				g.StatN(fmt.Sprintf("table.asm-length-class.%s.%s=%d/%d", cmd, pl, hit, len(allLengthClasses)), 1)
+			}
+		}
+	}()
 	r := g.R
+	g.Emit("api")
+	pairSweepC01(g)
 	nsolved := g.Count(150, 2000)
 	for i := 0; i < nsolved; i++ {
 		x := r.Intn(2)
@@ -274,6 +428,13 @@ func gen(gg *hx.Gen) {
 			}
 		}
 		g.Stat("place." + place)
+		markClass := func(cmd string) {
+			pl := place
+			if pl == "offset" {
+				pl = "inplace"
+			}
+			seenClass[cmd][pl+":"+lengthClass(L)] = true
+		}
 		placed := func(need int) (dst []byte, spare int) {
 			switch place {
 			case "inplace":
@@ -288,6 +449,7 @@ func gen(gg *hx.Gen) {
 			emit3(g, "seal x=%d key=%s nonce=%s ad=%s pt=%s dst=%s cap=%d place=%s", x, hx.Hex(key), hx.Hex(nonce), hx.Hex(ad), hx.Hex(pt), hx.Hex(dst), spare, place)
 			g.Stat("seal")
 			g.Stat("seal." + place)
+			markClass("seal")
 		} else {
 			ct := realSeal(x, key, nonce, pt, ad)
 			what := r.Intn(12)
@@ -304,6 +466,9 @@ func gen(gg *hx.Gen) {
 				g.Stat("open.valid")
 			}
 			g.Stat("open." + place)
+			if what > 1 {
+				markClass("open")
+			}
 			dst, spare := placed(L)
 			emit3(g, "open x=%d key=%s nonce=%s ad=%s ct=%s dst=%s cap=%d place=%s", x, hx.Hex(key), hx.Hex(nonce), hx.Hex(ad), hx.Hex(ct), hx.Hex(dst), spare, place)
 		}
@@ -379,7 +544,7 @@ func gen(gg *hx.Gen) {
 			g.Stat("alias.pt+k*65536")
 		}
 	}
-	extra := g.Count(300, 1500)
+	extra := g.Count(100, 1500)
 	for i := 0; i < extra; i++ {
 		top := 3000
 		if g.Thorough() && r.Chance(1, 20) {
@@ -451,15 +616,33 @@ func exec(line string) string {
 
 func execOne(o hx.Op, ss *sess) string {
 	ss.begin()
+	if o.Cmd == "api" {
+		k := make([]byte, cp.KeySize)
+		a, _ := cp.New(k)
+		ax, _ := cp.NewX(k)
+		return fmt.Sprintf("KeySize=%d NonceSize=%d NonceSizeX=%d Overhead=%d aead.NonceSize=%d aead.Overhead=%d xaead.NonceSize=%d xaead.Overhead=%d",
+			cp.KeySize, cp.NonceSize, cp.NonceSizeX, cp.Overhead, a.NonceSize(), a.Overhead(), ax.NonceSize(), ax.Overhead())
+	}
 	x := o.Int("x")
 	key, nonce, ad := ss.In("key", o.Hex("key")), ss.In("nonce", o.Hex("nonce")), ss.In("ad", o.Hex("ad"))
 	joint := o.Has("place") && o.Str("place") != "sep"
+	nils := o.Str("nils") == "1" // empty slices are passed as nil
+	if nils && len(ad) == 0 {
+		ad = nil
+	}
 	// buffers for dst and the input: separate, or one buffer with the input right behind dst (in place)
 	place := func(inName string, input []byte, resultExtra int) (dst, in []byte) {
 		if joint {
 			return ss.Joint("io", o.Hex("dst"), input, resultExtra+o.Int("cap"), 0xaa)
 		}
-		return ss.Out("dst", o.Hex("dst"), o.Int("cap"), 0xaa), ss.In(inName, input)
+		d, in := ss.Out("dst", o.Hex("dst"), o.Int("cap"), 0xaa), ss.In(inName, input)
+		if nils && len(d) == 0 && cap(d) == 0 {
+			d = nil
+		}
+		if nils && len(in) == 0 {
+			in = nil
+		}
+		return d, in
 	}
 	path := o.Str("path")
 	cp.VerifSetAVX2(origAVX2 && path != "off")
